@@ -320,6 +320,51 @@ def split_auto_declarators(ex, body):
     return body
 
 
+def _plain_chain_end(body, pos):
+    """pos is at `if (`; returns the index after the whole if / else-if / else chain (blocks only)."""
+    m = re.compile(r'if\s*\(').match(body, pos)
+    if not m:
+        raise ExtractionBroken("malformed if chain")
+    cp = match_close(body, m.end() - 1, '(', ')')
+    mo = re.compile(r'\s*\{').match(body, cp + 1)
+    if not mo:
+        raise ExtractionBroken("if with a declaration in its condition but without a block")
+    end = match_close(body, mo.end() - 1) + 1
+    me = re.compile(r'\s*else\s*\{').match(body, end)
+    mei = re.compile(r'\s*else\s+(?=if\s*\()').match(body, end)
+    if me:
+        return match_close(body, me.end() - 1) + 1
+    if mei:
+        return _plain_chain_end(body, mei.end())
+    return end
+
+
+def if_with_declaration(ex, body):
+    """C++ `if (auto x = e) {..} else ..` -> `{ auto x = e; if (x) {..} else .. }`: the declared name is in scope in
+    every branch of the chain and nowhere after it, as in C++."""
+    rx = re.compile(r'\bif\s*\(\s*((?:const\s+)?auto\s*\*?\s*(\w+)\s*=\s*)')
+    n = 0
+    pos = 0
+    while True:
+        m = rx.search(body, pos)
+        if not m:
+            break
+        op = body.index('(', m.start())
+        cp = match_close(body, op, '(', ')')
+        init = body[m.end():cp]
+        if ';' in init:
+            raise ExtractionBroken("if with init-statement and condition: not supported")
+        end = _plain_chain_end(body, m.start())
+        name = m.group(2)
+        decl = re.sub(r'\*', '', m.group(1))
+        body = (body[:m.start()] + '{ ' + decl + init + '; if (' + name + ')' +
+                body[cp + 1:end] + ' }' + body[end:])
+        pos = m.start() + 2
+        n += 1
+    ex.rules_fired.append(('if-with-declaration', n))
+    return body
+
+
 COMMON_RULES = [
     Rule('nullptr', r'\bnullptr\b', '((void*)0)'),
     Rule('std::size_t', r'\bstd::size_t\b', 'size_t'),
